@@ -166,7 +166,10 @@ def gen(tier, seed):
 
 
 def suites(tier, seed):
-    return [Suite("crossing-channel-closes", "machine", lambda: [c for c in __import__("props.c09", fromlist=["x"]).gen(tier, seed + 20)][: (600 if tier == "quick" else 6000)], monitor=(lambda c, il, sl: (lambda v: None if (v and v[1].startswith("d11")) else v)(__import__("props.c09", fromlist=["x"]).monitor(c, il, sl))), nontrivial=lambda c, il: True, canon=mg.canon_nondet, candidate_ok=mg.candidate_ok,
+    return [Suite("server-close-e2e", "faults", lambda: [Case("f%d" % i, ["run %s %d" % c], {"keep_prefix": 0, "fault": c[0]}) for i, c in enumerate([("srvclose", 0), ("srvclose200", 0), ("srvclose541", 1)] + ([] if tier == "quick" else [("srvclose0", 0), ("srvclose65535", 0), ("srvclose404", 0)]))],
+                  monitor=__import__("props.c05", fromlist=["x"]).e2e_monitor, nontrivial=lambda c, il: True, compare=False, shards=6, timeout=300,
+                  rule="real connection, I/O thread and client threads (a consumer waiting, a call in flight, a publisher publishing - requests racing with the close): the server closes the connection with reply code 320 / 200 / 541 (thorough: 0, 65535, 404): the close is still reported - Connection::close returns ServerClosedConnection with exactly that code and text, for every reply code"),
+            Suite("crossing-channel-closes", "machine", lambda: [c for c in __import__("props.c09", fromlist=["x"]).gen(tier, seed + 20)][: (600 if tier == "quick" else 6000)], monitor=(lambda c, il, sl: (lambda v: None if (v and v[1].startswith("d11")) else v)(__import__("props.c09", fromlist=["x"]).monitor(c, il, sl))), nontrivial=lambda c, il: True, canon=mg.canon_nondet, candidate_ok=mg.candidate_ok,
                   rule="sessions biased to channel closes from both sides at once (client Close crossing a server Close on the same channel, the server's late CloseOk, requests queued on a channel the server closes in the same batch): outcome = some serial order; nothing panics, nothing ends the connection (oracle of C09; D11-shaped cases are the known finding of C04/C09)"),
             Suite("reply-then-close", "machine", lambda: mg.reply_close_cases(Rng(seed + 77), kinds=("conn", "chan")), monitor=monitor, nontrivial=lambda c, il: True, canon=mg.canon_nondet, candidate_ok=mg.candidate_ok, exhaustive=True,
                   rule="directed: a call in flight on channel 1, a second channel busy; the reply and a server close arrive back to back (one read / two reads / handed over directly; reply taken before or after the close) for queue bounds 0, 1, 2, 16: both reach the caller in order, the other channel keeps working (channel close) or is told (connection close)"),
